@@ -22,10 +22,15 @@
 (* except in the class that is about collisions; tuple-shaped signatures    *)
 (* are tuples.                                                              *)
 (*                                                                          *)
+(* Overload groups (field grp): actions of one name.  The generator adds    *)
+(* >= 2 members of a group in ONE step (AddGroup): such a set counts as one *)
+(* unit, like an action outside any group; MaxActions bounds the units.     *)
+(*                                                                          *)
 (* Classes (field cls of an action) keep apart inputs that fail for         *)
 (* different reasons; at most one action of a special class is put into an  *)
 (* interface ("plain" and, in pool C, "object" - actions that exchange      *)
-(* objects of interfaces of the package - combine freely).                  *)
+(* objects of interfaces of the package - and "overload" - members of       *)
+(* overload groups - combine freely).                                       *)
 (***************************************************************************)
 EXTENDS SignatureOps
 
@@ -44,9 +49,21 @@ Prm(n, t) == [n |-> n, t |-> t]
 (***************************************************************************)
 Obj(n) == [k |-> "obj", name |-> n]
 
+(***************************************************************************)
+(* A dynamic value ("any", signature "m") that HOLDS a value of a known     *)
+(* type: Dyn(<<T1, T2, T3>>) - the k-th value of the leaf holds the k-th    *)
+(* value of Tk together with Tk's signature.  The interface only says "any" *)
+(* (Erase, IdlNameO); the types held need no declaration in the IDL text:   *)
+(* the value carries its signature and the receiver cuts it out of the      *)
+(* stream with the TypeReader of that signature (value.NewValue /           *)
+(* newOpaque).  Sc("m") remains the dynamic value of a few basic types.     *)
+(***************************************************************************)
+Dyn(ts) == [k |-> "dyn", ts |-> ts]
+
 RECURSIVE Erase(_)
 Erase(T) ==
   CASE T.k = "obj"    -> Sc("o")
+    [] T.k = "dyn"    -> Sc("m")
     [] T.k = "sc"     -> T
     [] T.k = "list"   -> List(Erase(T.e))
     [] T.k = "map"    -> Map(Erase(T.key), Erase(T.val))
@@ -56,17 +73,21 @@ Erase(T) ==
 RECURSIVE IdlNameO(_)
 IdlNameO(T) ==
   CASE T.k = "obj"    -> T.name
+    [] T.k = "dyn"    -> "any"
     [] T.k = "list"   -> "Vec<" \o IdlNameO(T.e) \o ">"
     [] T.k = "map"    -> "Map<" \o IdlNameO(T.key) \o "," \o IdlNameO(T.val) \o ">"
     [] T.k = "tuple"  -> "Tuple<" \o JoinComma([i \in DOMAIN T.ms |-> IdlNameO(T.ms[i])]) \o ">"
     [] OTHER          -> IdlName(T)        \* scalars; structures print their name
 
+\* grp: the overload group of the action ("": none).  Actions of one group carry the same name (or names
+\* that the generators map to the same Go name); the interface generator below adds >= 2 of them together.
 Method(id, name, ps, ret, cls) ==
-  [kind |-> "method", id |-> id, name |-> name, ps |-> ps, ret |-> ret, bare |-> FALSE, cls |-> cls]
+  [kind |-> "method", id |-> id, name |-> name, ps |-> ps, ret |-> ret, bare |-> FALSE, cls |-> cls, grp |-> ""]
 Signal(id, name, ps, bare, cls) ==
-  [kind |-> "signal", id |-> id, name |-> name, ps |-> ps, ret |-> Void, bare |-> bare, cls |-> cls]
+  [kind |-> "signal", id |-> id, name |-> name, ps |-> ps, ret |-> Void, bare |-> bare, cls |-> cls, grp |-> ""]
 Property(id, name, ps, bare, cls) ==
-  [kind |-> "property", id |-> id, name |-> name, ps |-> ps, ret |-> Void, bare |-> bare, cls |-> cls]
+  [kind |-> "property", id |-> id, name |-> name, ps |-> ps, ret |-> Void, bare |-> bare, cls |-> cls, grp |-> ""]
+In(g, a) == [a EXCEPT !.grp = g]
 
 ParamTypes(a) == [i \in DOMAIN a.ps |-> a.ps[i].t]
 ParamNames(a) == [i \in DOMAIN a.ps |-> a.ps[i].n]
@@ -87,6 +108,7 @@ RECURSIVE Structs(_)
 Structs(T) ==
   CASE T.k = "sc"     -> {}
     [] T.k = "obj"    -> {}
+    [] T.k = "dyn"    -> {}          \* what a dynamic value holds is not declared
     [] T.k = "list"   -> Structs(T.e)
     [] T.k = "map"    -> Structs(T.key) \cup Structs(T.val)
     [] T.k = "tuple"  -> UNION {Structs(T.ms[i]) : i \in DOMAIN T.ms}
@@ -194,7 +216,11 @@ PoolB ==
         Signal(86, "traceObject", <<Prm("P0", OuterT)>>, FALSE, "plain"),
         Property(303, "table", <<Prm("P0", Map(S_, List(PointT)))>>, FALSE, "plain"),
         Property(304, "bareList", <<Prm("param", List(S_))>>, TRUE, "bare-property"),
-        Signal(305, "bareStruct", <<Prm("P0", PointT)>>, TRUE, "bare-signal") >>
+        Signal(305, "bareStruct", <<Prm("P0", PointT)>>, TRUE, "bare-signal"),
+        \* an overload group: two methods and a signal of one name (added together, see AddGroup)
+        In("over", Method(311, "over", <<Prm("a", I_)>>, I_, "plain")),
+        In("over", Method(312, "over", <<Prm("a", S_), Prm("b", PointT)>>, S_, "plain")),
+        In("over", Signal(313, "over", <<Prm("P0", I_)>>, FALSE, "plain")) >>
 
 \* third pool (C05): only types whose values the generated code can carry; identifier classes
 \* for the names that reach the Go code generator
@@ -210,6 +236,26 @@ SelfO == Obj("Itf")
 N_Holder == <<"H","o","l","d","e","r">>
 F_probe == <<"p","r","o","b","e">>
 HolderT == Struct(N_Holder, <<S_, ProbeO>>, <<F_name, F_probe>>)
+\* the less common scalars as fields, as elements, as keys and values; a last field follows
+N_Mix == <<"M","i","x">>
+N_Vecs == <<"V","e","c","s">>
+N_Maps == <<"M","a","p","s">>
+N_Box == <<"B","o","x">>
+F_i8 == <<"i","8">>
+F_u8 == <<"u","8">>
+F_i16 == <<"i","1","6">>
+F_u16 == <<"u","1","6">>
+F_i64 == <<"i","6","4">>
+F_u64 == <<"u","6","4">>
+F_f32 == <<"f","3","2">>
+F_tail == <<"t","a","i","l">>
+ScalarFields == <<F_i8, F_u8, F_i16, F_u16, F_i64, F_u64, F_f32, F_tail>>
+MixT  == Struct(N_Mix, <<Sc("c"), Sc("C"), Sc("w"), Sc("W"), Sc("l"), Sc("L"), Sc("f"), S_>>, ScalarFields)
+VecsT == Struct(N_Vecs, <<List(Sc("c")), List(Sc("C")), List(Sc("w")), List(Sc("W")), List(Sc("l")), List(Sc("L")),
+                          List(Sc("f")), S_>>, ScalarFields)
+MapsT == Struct(N_Maps, <<Map(Sc("c"), Sc("C")), Map(Sc("C"), Sc("w")), Map(Sc("w"), Sc("W")), Map(Sc("W"), Sc("l")),
+                          Map(Sc("l"), Sc("L")), Map(Sc("L"), Sc("f")), Map(Sc("f"), Sc("c")), S_>>, ScalarFields)
+BoxT  == Struct(N_Box, <<Dyn(<<MixT, VecsT, MapsT>>), S_>>, <<F_val, F_tail>>)
 PoolC ==
   << Method(100, "ping", <<>>, Void, "plain"),
      Method(101, "add", <<Prm("a", I_), Prm("b", Sc("l"))>>, Sc("L"), "plain"),
@@ -283,7 +329,92 @@ PoolC ==
      \* tuples that are a whole result / payload / property value
      Method(166, "coords", <<>>, Tuple(<<S_, I_>>), "tuple-result-without-params"),
      Signal(167, "located", <<Prm("at", Tuple(<<S_, I_>>))>>, FALSE, "signal-tuple-param"),
-     Property(168, "origin", <<Prm("at", Tuple(<<S_, I_>>))>>, FALSE, "property-tuple-param") >>
+     Property(168, "origin", <<Prm("at", Tuple(<<S_, I_>>))>>, FALSE, "property-tuple-param"),
+     \* OVERLOAD GROUPS: actions of one name in one interface (the generators name them Set, Set_0, Set_1 ..
+     \* in the order methods / signals / properties, each by uid: IdlRpc!GoName); >= 2 members are added
+     \* together (AddGroup).  Different parameter lists, different return types, one without parameters,
+     \* the less common scalars as arguments and results, a signal and a property named like a method,
+     \* composite parameters, an explicit name that looks like a generated one, text order # uid order
+     In("set", Method(170, "set", <<Prm("level", I_)>>, Void, "overload")),
+     In("set", Method(171, "set", <<Prm("name", S_)>>, Void, "overload")),
+     In("set", Method(172, "set", <<Prm("left", I_), Prm("right", I_)>>, I_, "overload")),
+     In("conv", Method(173, "conv", <<>>, Sc("c"), "overload")),
+     In("conv", Method(174, "conv", <<Prm("x", Sc("c"))>>, Sc("C"), "overload")),
+     In("conv", Method(175, "conv", <<Prm("x", Sc("C"))>>, Sc("w"), "overload")),
+     In("wide", Method(176, "wide", <<Prm("x", Sc("w"))>>, Sc("W"), "overload")),
+     In("wide", Method(177, "wide", <<Prm("x", Sc("W"))>>, Sc("l"), "overload")),
+     In("wide", Method(178, "wide", <<Prm("x", Sc("l"))>>, Sc("L"), "overload")),
+     In("real", Method(179, "real", <<Prm("x", Sc("L"))>>, Sc("f"), "overload")),
+     In("real", Method(180, "real", <<Prm("x", Sc("f"))>>, Sc("L"), "overload")),
+     In("notify", Method(181, "notify", <<Prm("x", I_)>>, I_, "overload")),
+     In("notify", Signal(182, "notify", <<Prm("x", I_)>>, FALSE, "overload")),
+     In("notify", Property(183, "notify", <<Prm("x", I_)>>, FALSE, "overload")),
+     In("put", Method(184, "put", <<Prm("pt", PointT)>>, Void, "overload")),
+     In("put", Method(185, "put", <<Prm("pts", List(PointT))>>, I_, "overload")),
+     In("put", Method(186, "put", <<Prm("byName", Map(S_, PointT)), Prm("e", EntryT)>>, S_, "overload")),
+     In("tag", Method(187, "tag", <<Prm("a", I_)>>, I_, "overload")),
+     In("tag", Method(188, "tag", <<Prm("a", S_)>>, S_, "overload")),
+     In("tag", Method(189, "tag_0", <<Prm("a", Sc("b"))>>, Sc("b"), "overload")),
+     In("rev", Method(191, "rev", <<Prm("a", S_)>>, S_, "overload")),
+     In("rev", Method(190, "rev", <<Prm("a", I_)>>, I_, "overload")),
+     \* THE LESS COMMON SCALARS (int8 uint8 int16 uint16 int64 uint64 float32) INSIDE COMPOSITES, in the
+     \* positions where the generated code carries the composite as a dynamic value (property: Set<P> builds
+     \* value.Opaque(signature, bytes), the object cuts it out of the stream with the TypeReader of the
+     \* signature, Get<P> decodes what is stored; "any" parameters, results, fields, elements; signals),
+     \* each with data FOLLOWING the composite (a last field, a following argument)
+     Method(200, "mix", <<Prm("v", MixT), Prm("tail", S_)>>, MixT, "plain"),
+     Property(201, "mixProp", <<Prm("v", MixT)>>, FALSE, "plain"),
+     Signal(202, "mixSig", <<Prm("v", MixT), Prm("tail", S_)>>, FALSE, "plain"),
+     Signal(203, "mixOnly", <<Prm("v", MixT)>>, FALSE, "plain"),
+     Method(204, "vecs", <<Prm("a1", List(Sc("c"))), Prm("a2", List(Sc("C"))), Prm("a3", List(Sc("w"))),
+                           Prm("a4", List(Sc("W"))), Prm("a5", List(Sc("l"))), Prm("a6", List(Sc("L"))),
+                           Prm("a7", List(Sc("f"))), Prm("tail", S_)>>, VecsT, "plain"),
+     Property(205, "vecsProp", <<Prm("v", VecsT)>>, FALSE, "plain"),
+     Signal(206, "vecsSig", <<Prm("v", VecsT), Prm("tail", S_)>>, FALSE, "plain"),
+     Method(207, "maps2", <<Prm("a1", Map(Sc("c"), Sc("C"))), Prm("a2", Map(Sc("C"), Sc("w"))),
+                            Prm("a3", Map(Sc("w"), Sc("W"))), Prm("a4", Map(Sc("W"), Sc("l"))),
+                            Prm("a5", Map(Sc("l"), Sc("L"))), Prm("a6", Map(Sc("L"), Sc("f"))),
+                            Prm("a7", Map(Sc("f"), Sc("c"))), Prm("tail", S_)>>, MapsT, "plain"),
+     Property(208, "mapsProp", <<Prm("v", MapsT)>>, FALSE, "plain"),
+     Signal(209, "mapsSig", <<Prm("v", MapsT), Prm("tail", S_)>>, FALSE, "plain"),
+     \* the container itself is the property value / the payload
+     Property(210, "octets", <<Prm("v", List(Sc("C")))>>, FALSE, "plain"),
+     Property(211, "wideMap", <<Prm("v", Map(Sc("W"), Sc("l")))>>, FALSE, "plain"),
+     Signal(212, "samples", <<Prm("v", List(Sc("w"))), Prm("tail", S_)>>, FALSE, "plain"),
+     Signal(213, "floats", <<Prm("v", List(Sc("f")))>>, FALSE, "plain"),
+     \* the scalar itself is the property value (value.NewValue's own constructors) / the payload
+     Property(214, "u8", <<Prm("v", Sc("C"))>>, FALSE, "plain"),
+     Property(215, "i16", <<Prm("v", Sc("w"))>>, FALSE, "plain"),
+     Property(216, "u16", <<Prm("v", Sc("W"))>>, FALSE, "plain"),
+     Property(217, "i64", <<Prm("v", Sc("l"))>>, FALSE, "plain"),
+     Property(218, "u64", <<Prm("v", Sc("L"))>>, FALSE, "plain"),
+     Property(219, "f32", <<Prm("v", Sc("f"))>>, FALSE, "plain"),
+     Signal(220, "scalarsSig", <<Prm("a1", Sc("c")), Prm("a2", Sc("C")), Prm("a3", Sc("w")), Prm("a4", Sc("W")),
+                                 Prm("a5", Sc("l")), Prm("a6", Sc("L")), Prm("a7", Sc("f")), Prm("tail", S_)>>, FALSE, "plain"),
+     Signal(221, "sigI8", <<Prm("v", Sc("c"))>>, FALSE, "plain"),
+     Signal(222, "sigU16", <<Prm("v", Sc("W"))>>, FALSE, "plain"),
+     Signal(223, "sigU64", <<Prm("v", Sc("L"))>>, FALSE, "plain"),
+     Signal(224, "sigU8", <<Prm("v", Sc("C"))>>, FALSE, "plain"),
+     Signal(235, "sigI16", <<Prm("v", Sc("w"))>>, FALSE, "plain"),
+     Signal(236, "sigI64", <<Prm("v", Sc("l"))>>, FALSE, "plain"),
+     Signal(237, "sigF32", <<Prm("v", Sc("f"))>>, FALSE, "plain"),
+     \* inside "any": arguments (with a following one), results, payloads, a field followed by another
+     \* field, elements of Vec<any> / Map<str,any>, the composite itself holding containers of structures
+     Method(225, "anyMix", <<Prm("v", Dyn(<<MixT, VecsT, MapsT>>)), Prm("tail", S_)>>, Dyn(<<VecsT, MapsT, MixT>>), "plain"),
+     Method(226, "anyScalars", <<Prm("a1", Dyn(<<Sc("c"), Sc("C"), Sc("w")>>)), Prm("a2", Dyn(<<Sc("W"), Sc("l"), Sc("L")>>)),
+                                 Prm("a3", Dyn(<<Sc("f"), Sc("d"), Sc("I")>>)), Prm("tail", I_)>>,
+            Dyn(<<Sc("L"), Sc("c"), Sc("W")>>), "plain"),
+     Method(227, "anyDeep", <<Prm("v", Dyn(<<List(MixT), Map(S_, MixT), Tuple(<<MixT, S_>>)>>)), Prm("tail", S_)>>,
+            Dyn(<<Map(Sc("w"), List(Sc("C"))), List(List(Sc("c"))), List(Sc("W"))>>), "plain"),
+     Signal(228, "anySig", <<Prm("v", Dyn(<<MixT, VecsT, MapsT>>)), Prm("tail", S_)>>, FALSE, "plain"),
+     Signal(229, "anyOnly", <<Prm("v", Dyn(<<MapsT, MixT, List(Sc("L"))>>))>>, FALSE, "plain"),
+     Method(230, "box", <<Prm("v", BoxT), Prm("tail", S_)>>, BoxT, "plain"),
+     Property(231, "boxProp", <<Prm("v", BoxT)>>, FALSE, "plain"),
+     Method(232, "anyList", <<Prm("v", List(Dyn(<<Sc("c"), Sc("W"), MixT>>))), Prm("tail", S_)>>,
+            Map(S_, Dyn(<<Sc("L"), Sc("f"), VecsT>>)), "plain"),
+     Method(234, "anyBack", <<Prm("a1", Dyn(<<Sc("l"), Sc("f"), Sc("C")>>)), Prm("tail", Sc("c"))>>,
+            Dyn(<<Sc("C"), Sc("w"), Sc("l")>>), "plain"),
+     Property(233, "anyProp", <<Prm("v", Dyn(<<MixT, Sc("W"), MapsT>>))>>, FALSE, "property-any") >>
 
 Pools == [a |-> PoolA, b |-> PoolB, c |-> PoolC]
 ThePool == Pools[Pool]
@@ -297,15 +428,37 @@ ivars == <<chosen, last>>
 Actions == {ThePool[i] : i \in chosen}
 \* "object": actions that exchange objects of interfaces of the package and that the generators handle
 \* (like "plain" they combine freely); every other class is a special one
-Special(i) == ThePool[i].cls \notin {"plain", "object"}
+\* "overload": members of overload groups that the generators handle
+Special(i) == ThePool[i].cls \notin {"plain", "object", "overload"}
+
+\* Units: an action outside any group, or >= 2 members of one overload group (a group only makes sense
+\* with several members in ONE interface).  MaxActions bounds the units.  The members of a group stand
+\* next to each other in the pool; a group is visited once.
+Grouped(i) == ThePool[i].grp # ""
+GroupOf(i) == {j \in DOMAIN ThePool : ThePool[j].grp = ThePool[i].grp}
+Leaders == {i \in DOMAIN ThePool : Grouped(i) /\ \A j \in GroupOf(i) : i <= j}
+Groups == {ThePool[i].grp : i \in Leaders}
+NUnits == Cardinality({i \in chosen : ~Grouped(i)}) + Cardinality({ThePool[i].grp : i \in {j \in chosen : Grouped(j)}})
+GroupsContiguous == \A l \in Leaders : GroupOf(l) = l..Max(GroupOf(l))
+ASSUME GroupsContiguous
 
 IInit == chosen = {} /\ last = 0
-Add(i) == /\ i > last
-          /\ Cardinality(chosen) < MaxActions
+Add(i) == /\ ~Grouped(i)
+          /\ i > last
+          /\ NUnits < MaxActions
           /\ Special(i) => \A j \in chosen : ~Special(j)
           /\ chosen' = chosen \cup {i}
           /\ last' = i
-INext == \E i \in DOMAIN ThePool : Add(i)
+AddGroup(S) == /\ Cardinality(S) >= 2
+               /\ \E l \in Leaders : /\ S \subseteq GroupOf(l)
+                                     /\ l > last
+                                     /\ last' = Max(GroupOf(l))
+               /\ NUnits < MaxActions
+               /\ (\E i \in S : Special(i)) => (\A j \in chosen : ~Special(j)) /\ Cardinality({i \in S : Special(i)}) = 1
+               /\ chosen' = chosen \cup S
+GroupSets == UNION {SUBSET GroupOf(l) : l \in Leaders}
+INext == \/ \E i \in DOMAIN ThePool : Add(i)
+         \/ \E S \in GroupSets : AddGroup(S)
 ISpec == IInit /\ [][INext]_ivars
 
 (***************************************************************************)
@@ -327,9 +480,13 @@ VoidOnlyReturned ==
   LET RECURSIVE HasVoid(_)
       HasVoid(T) == CASE T.k = "sc"   -> T.c = "v"
                       [] T.k = "obj"  -> FALSE
+                      [] T.k = "dyn"  -> FALSE
                       [] T.k = "list" -> HasVoid(T.e)
                       [] T.k = "map"  -> HasVoid(T.key) \/ HasVoid(T.val)
                       [] OTHER        -> \E i \in DOMAIN T.ms : HasVoid(T.ms[i])
   IN \A a \in Actions : ~HasVoid(Tuple(ParamTypes(a))) /\ (a.ret = Void \/ ~HasVoid(a.ret))
 AtMostOneSpecial == Cardinality({i \in chosen : Special(i)}) <= 1
+\* an overload group is in the interface with two members at least, or not at all
+GroupsTogether == \A g \in Groups : Cardinality({i \in chosen : ThePool[i].grp = g}) # 1
+UnitsBounded == NUnits <= MaxActions
 =============================================================================
